@@ -54,6 +54,13 @@ func InitStorage() error {
 			}
 
 			if err := fs.open(); err != nil {
+				fs.file.Close()
+				if errors.Is(err, io.EOF) || errors.Is(err, io.ErrUnexpectedEOF) {
+					// the data file ends before its header does: CREATE
+					// DATABASE was interrupted, there is nothing to recover.
+					// The other databases must start all the same.
+					return nil
+				}
 				return err
 			}
 
